@@ -454,8 +454,11 @@ class Bench:
             self.repo = None
 
 
-def judge_ingest(ctx, bench, path, label, data, cuts, valid, expected, cls):
-    """One evaluation of the oracle."""
+def judge_ingest(ctx, bench, path, label, data, cuts, valid, expected, cls,
+                 probe=None):
+    """One evaluation of the oracle.  ``probe``: ids the undamaged stream
+    would have added; asked of the same store object straight after a
+    failure, before anything makes it rescan its directory."""
     import tracemalloc
     store_path = path in ("add_thin_pack", "add_pack", "add_pack_data")
     tag = f"{path}/{bench.kind}/{cls}"
@@ -527,6 +530,41 @@ def judge_ingest(ctx, bench, path, label, data, cuts, valid, expected, cls):
         return
     # --- post-state of the store
     gc.collect()
+    if outcome == "raised" and probe:
+        st_ = bench.store
+        for oid in sorted(probe):
+            if oid in bench.pre:
+                continue
+            got = None
+            try:
+                if oid in st_:
+                    got = "contains -> True"
+                else:
+                    try:
+                        st_.get_raw(oid)
+                        got = "get_raw -> data"
+                    except KeyError:
+                        pass
+            except Exception as e:  # noqa: BLE001
+                got = "raised " + type(e).__name__
+            if got:
+                ctx.v(f"visible-after-failure/{tag}/same-instance-direct",
+                      f"{label}: ingestion raised {exc.name}; asked at once, "
+                      f"the same store object says {got} for {oid}")
+                break
+        if bench.kind == "disk":
+            try:
+                listed = len(list(st_.packs))
+            except Exception as e:  # noqa: BLE001
+                listed = "raised " + type(e).__name__
+            fl = bench.files()
+            # a pack exists when both files do; temp files are not packs
+            ondisk = len([f for f in fl if f.endswith(".pack") and
+                          f[:-5] + ".idx" in fl])
+            if listed != ondisk:
+                ctx.v(f"pack-listed-after-failure/{tag}",
+                      f"{label}: store.packs -> {listed}, {ondisk} pack "
+                      f"file(s) on disk")
     now = None
     err = None
     try:
@@ -627,7 +665,8 @@ def run_stream(plan, ctx, root):
                 continue
             cuts = cuts_for(plan["cut"], len(data), rng)
             judge_ingest(ctx, bench, plan["path"], label, data, cuts, pack,
-                         None, plan["family"].replace("retrailed-", "re"))
+                         None, plan["family"].replace("retrailed-", "re"),
+                         probe=set(expected))
     finally:
         bench.close()
 
